@@ -177,3 +177,57 @@ Theorem C03_trend_predict_is_jacobian_times_coef : forall N coef east north i,
 Proof. exact trend_predict_is_jacobian_times_coef. Qed.
 Print Assumptions C03_trend_predict_is_jacobian_times_coef.
 End Loops.
+
+(** * polynomial_power_combinations (verde/trend.py): the monomial order *)
+Section Monomials.
+Open Scope nat_scope.
+
+(** (N+1)(N+2)/2 coefficients *)
+Theorem C03_combos_length : forall N, 2 * length (power_combinations N) = (N + 1) * (N + 2).
+Proof. exact combos_length. Qed.
+Print Assumptions C03_combos_length.
+
+(** x^i y^j occurs iff i + j <= N, exactly once *)
+Theorem C03_combos_complete : forall N,
+  NoDup (power_combinations N) /\ forall i j, In (i, j) (power_combinations N) <-> i + j <= N.
+Proof. exact combos_complete. Qed.
+Print Assumptions C03_combos_complete.
+
+(** total degree is non-decreasing along the list *)
+Theorem C03_combos_sorted : forall N, StronglySorted (fun a b => deg a <= deg b) (power_combinations N).
+Proof. exact combos_sorted. Qed.
+Print Assumptions C03_combos_sorted.
+
+(** within degree d the order is (d, 0), (d-1, 1), ..., (0, d): Python's sort is stable *)
+Theorem C03_combos_within_degree : forall N d, d <= N ->
+  filter (fun c => deg c =? d) (power_combinations N) = map (fun j => (d - j, j)) (seq 0 (d + 1)).
+Proof. exact combos_within_degree. Qed.
+Print Assumptions C03_combos_within_degree.
+
+(** altogether: generator + stable sort = the documented list, for every degree *)
+Theorem C03_combos_closed_form : forall N,
+  power_combinations N = flat_map (fun d => map (fun j => (d - j, j)) (seq 0 (d + 1))) (seq 0 (N + 1)).
+Proof. exact combos_closed_form. Qed.
+Print Assumptions C03_combos_closed_form.
+End Monomials.
+
+(** * non-vacuity *)
+Example C03_nv_combos :
+  power_combinations 2 = [(0, 0); (1, 0); (0, 1); (2, 0); (1, 1); (0, 2)]%nat /\
+  gen_combos 2 = [(0, 0); (1, 0); (2, 0); (0, 1); (1, 1); (0, 2)]%nat.
+Proof. split; reflexivity. Qed.
+
+(** degree 1, coefficients (10, 2, -1/2) at (e, n) = (3, 4): 10 + 2*3 - 4/2 = 14 *)
+Example C03_nv_trend : (map Qred (trend_predict 1 [10; 2; -(1#2)] [3; 0] [4; 1]) = [14; 19 # 2])%Q.
+Proof. vm_compute. reflexivity. Qed.
+
+Example C03_nv_loop :
+  (nth 1 (predict_loop (cols_of (fun i j => inject_Z (Z.of_nat (i + 2 * j))) 2 3) [1; 2; 3] (zeros 2)) 0 == 22)%Q.
+Proof. vm_compute. reflexivity. Qed.
+
+Example C03_nv_kernel : (g_code 1 = -1)%R /\ (0 < dist 0 0 (1/2))%R /\ (g_ne 3 4 0 (-1) = 0)%R.
+Proof.
+  split; [exact (proj2 branches_agree_at_1)|]. split.
+  - apply dist_pos_mindist. apply Rlt_gt. apply Rdiv_lt_0_compat; [apply Rlt_0_1|apply Rlt_0_2].
+  - apply (elastic_uncoupled 3 4 0). apply dist_pos_apart; [apply Rle_refl|]. left. apply not_0_IZR. discriminate.
+Qed.
